@@ -855,6 +855,10 @@ func (c *VCtx) loopBack(fr *Frame, li *loopInfo, st *State, from *ssa.BasicBlock
 			}
 		}
 	}
+	if fr.contract != nil && len(fr.contract.Ghost) > 0 {
+		// ghost statements at "backedge N": executed whenever the loop goes round again, before the invariant is checked
+		c.runGhost(fr, st, fr.contract, fmt.Sprintf("backedge %d", li.ordinal), nil)
+	}
 	if fr.contract != nil && fr.contract.Asserts != nil {
 		// "no busy waiting": what must hold whenever the loop goes round again
 		c.pointAsserts(fr, st, fmt.Sprintf("backedge %d", li.ordinal), token.NoPos)
